@@ -331,11 +331,11 @@ func firstDiff(a, b string) string {
 // ---------- sub-check "import": each importing environment gets its own copy ----------
 
 type ImportCase struct {
-	Pkg    string `json:"pkg"`
-	Sym    string `json:"sym"`
-	Other  string `json:"other"`
-	Form   int    `json:"form"`
-	Twice  bool   `json:"twice"`
+	Pkg   string `json:"pkg"`
+	Sym   string `json:"sym"`
+	Other string `json:"other"`
+	Form  int    `json:"form"`
+	Twice bool   `json:"twice"`
 }
 
 var importSyms = map[string][]string{
